@@ -218,6 +218,31 @@ class Ctx(object):
                 return path
             path = cs.pop()
 
+    def owners(self, path):
+        """Like owner(), for a helper shared by several callers: the vocabulary functions it belongs to (each caller's
+        owner), or {path} when it is not such a helper."""
+        path = re.sub(r'(::\{closure#\d+\})+$', '', path)
+        if not self.new_helper(path):
+            return {path}
+        fn = self.fns.get(path)
+        if fn is None or fn.get('vis') == 'pub' or fn.get('impl_trait'):
+            return {path}
+        out, seen, st = set(), {path}, [path]
+        while st:
+            f = st.pop()
+            cs = set(re.sub(r'(::\{closure#\d+\})+$', '', c) for c in self.cg.callers(f)) - {f}
+            if not cs:
+                return {path}
+            for c in cs:
+                cf = self.fns.get(c)
+                if self.new_helper(c) and cf is not None and cf.get('vis') != 'pub' and not cf.get('impl_trait'):
+                    if c not in seen:
+                        seen.add(c)
+                        st.append(c)
+                else:
+                    out.add(c)
+        return out or {path}
+
     def callers(self, target):
         return set(self.owner(c) for c in self.cg.callers(target))
 
